@@ -668,6 +668,7 @@ function runQuery(env, q) {
       const p = getParser(env, q);
       const res = [];
       const identity = [];
+      const entry = [];
       const sameObject = q.sameObject === true;
       for (const tv of q.values) {
         const row = [];
@@ -680,6 +681,16 @@ function runQuery(env, q) {
           }
         }
         res.push(row);
+        // every entry point takes the same options: what validate says under an option set is what safeParse and parse do
+        if (q.entryPoints === true) {
+          q.optsList.forEach((o, i) => {
+            if (typeof row[i] !== "number") return;
+            let sp, pr;
+            try { sp = p.safeParse(revive(tv), optsOf(o)).success === true ? 1 : 0; } catch (e) { sp = "T"; }
+            try { p.parse(revive(tv), optsOf(o)); pr = 1; } catch (e) { pr = 0; }
+            if (sp !== row[i] || pr !== row[i]) entry.push({ value: res.length - 1, opts: i, validate: row[i], safeParse: sp, parse: pr });
+          });
+        }
         // the same object (identity, not a copy) validated under each option set in turn, in both orders: the answer
         // is a function of the value and the options, whatever was asked about that object before
         if (!sameObject) continue;
@@ -693,7 +704,7 @@ function runQuery(env, q) {
           }
         }
       }
-      return { m: res, identity };
+      return { m: res, identity, entry };
     }
     case "trio": {
       // C03: validate / safeParse / parse relations, evaluated here where object identity is visible
